@@ -96,6 +96,19 @@ static void make_farr(rng_t *r, farr_t *f, size_t maxn) {
         }
         f->v[i] = dbl_from_bits(b);
     }
+    if (n >= 2 && rng_chance(r, 1, 10)) {
+        /* exponent spread exactly 254 / 255 / 256 binades, the top value carrying on rounding */
+        unsigned spread = 254 + (unsigned)rng_below(r, 3);
+        unsigned lo = 1 + (unsigned)rng_below(r, 2046 - spread);
+        for (size_t i = 0; i < n; i++) {
+            uint64_t e = lo + rng_below(r, spread + 1);
+            f->v[i] = dbl_from_bits(((rng_next(r) & 1) << 63) | (e << 52) | (rng_next(r) & 0xFFFFFFFFFFFFFULL));
+        }
+        f->v[rng_below(r, n)] = dbl_from_bits(((uint64_t)lo << 52) | (rng_next(r) & 0xFFFFFFFFFFFFFULL));
+        size_t top = rng_below(r, n);
+        f->v[top] = dbl_from_bits(((uint64_t)(lo + spread) << 52) | (rng_chance(r, 1, 2) ? 0xFFFFFFFFFFFFFULL : (rng_next(r) & 0xFFFFFFFFFFFFFULL)));
+        f->kind = "spread-254..256-with-carry";
+    }
     if (ak == 4) {
         size_t pos = rng_chance(r, 1, 2) ? (rng_chance(r, 1, 2) ? 0 : n - 1) : rng_below(r, n);
         f->v[pos] = dbl_from_bits(gen_double_bits(r, rng_chance(r, 1, 2) ? 2 : 0, 0));
